@@ -381,6 +381,58 @@ def _enum_call(cls, value, *a, **k):
     return SymMember(cls, SFun(f.support, table), [int(x) for x in f.table], dontcare)
 
 
+TRIPPED = []  # (what) - wall-clock time / randomness sources called on the current path
+
+
+def _tripwire(mod, name, what):
+    orig = getattr(mod, name)
+
+    def wrapper(*a, **k):
+        if sys._getframe(1).f_globals.get("__name__", "").startswith("okdmr."):  # called by code under contract
+            TRIPPED.append(what)
+        return orig(*a, **k)
+
+    wrapper._pyvc_orig = orig
+    setattr(mod, name, wrapper)
+
+
+def install_tripwires(modules):
+    import secrets, time as _time, uuid, random as _random, datetime as _dt
+
+    for mod, names in ((secrets, ("token_bytes", "token_hex", "randbits", "randbelow", "choice")), (_time, ("time", "time_ns", "monotonic", "perf_counter")),
+                       (uuid, ("uuid1", "uuid4")), (_random, ("random", "randint", "getrandbits", "randrange", "choice", "randbytes"))):
+        for n in names:
+            if hasattr(mod, n) and not hasattr(getattr(mod, n), "_pyvc_orig"):
+                _tripwire(mod, n, mod.__name__ + "." + n)
+
+    class TripDatetime(_dt.datetime):
+        @classmethod
+        def now(cls, tz=None):
+            TRIPPED.append("datetime.now")
+            return _dt.datetime.now(tz)
+
+        @classmethod
+        def utcnow(cls):
+            TRIPPED.append("datetime.utcnow")
+            return _dt.datetime.utcnow()
+
+        @classmethod
+        def today(cls):
+            TRIPPED.append("datetime.today")
+            return _dt.datetime.today()
+
+    for m in modules:
+        d = m.__dict__
+        for k, v in list(d.items()):
+            if v is _dt.datetime:
+                d[k] = TripDatetime
+            elif getattr(v, "__module__", None) in ("time", "secrets", "uuid", "random") and callable(v) and not hasattr(v, "_pyvc_orig"):
+                src = sys.modules.get(v.__module__)
+                w = getattr(src, getattr(v, "__name__", ""), None) if src else None
+                if w is not None and hasattr(w, "_pyvc_orig"):
+                    d[k] = w  # `from time import time` captured the original: rebind to the tripwire
+
+
 def install(modules=None):
     enum.EnumType.__call__ = _enum_call
     fac = NumpyFacade()
@@ -405,6 +457,7 @@ def install(modules=None):
         from .binstr import s_bin
         d["bin"] = s_bin
         d["isinstance"] = s_isinstance
+    install_tripwires(modules)
     return modules
 
 
